@@ -519,6 +519,7 @@ func Run(plan Plan, dir string, rng *rand.Rand, caughtUpWatchdog time.Duration) 
 						cl.SetApplyDelay(i, 15*time.Millisecond)
 					}
 				}
+				cl.SetAsyncDelivery(true)
 				// the burst is proposed concurrently (clients of their own), so the leader
 				// replicates it in one or two appends and the followers hold several entries
 				// they have not been told are committed when the leader is cut off
@@ -563,6 +564,7 @@ func Run(plan Plan, dir string, rng *rand.Rand, caughtUpWatchdog time.Duration) 
 						tr.ProbeBacklogs++
 					}
 					r1 := read(nl)
+					cl.SetAsyncDelivery(false)
 					for i := range cl.Nodes {
 						cl.SetApplyDelay(i, 0)
 					}
@@ -574,6 +576,7 @@ func Run(plan Plan, dir string, rng *rand.Rand, caughtUpWatchdog time.Duration) 
 				} else {
 					ev.Note = fmt.Sprintf("region %d: store %d isolated, no new leader within the watchdog", reg, l)
 				}
+				cl.SetAsyncDelivery(false)
 				for i := range cl.Nodes {
 					cl.SetApplyDelay(i, 0)
 				}
